@@ -18,7 +18,11 @@ void vassert(uint32_t c, uint32_t id);
 void vassume(uint32_t c);
 void vwitness(uint32_t id);
 #define VASSERT(c, id)     do { if (VERIF_SEL(id)) __CPROVER_assert((c), "vassert:" #id); } while (0)
+#ifdef VERIF_NOWITNESS
+#define VWITNESS(id)       do { } while (0)
+#else
 #define VWITNESS(id)       __CPROVER_assert(0, "vwitness:" #id)
+#endif
 #define VASSUME(c)         __CPROVER_assume(c)
 #ifdef VERIF_UB
 #define ASSERT_UB(c, msg)  __CPROVER_assert((c), "ub:" msg)
